@@ -285,19 +285,29 @@ def pipe(repo, consts):
         src.err('register_raw', 'signature', sig)
     st = stmts(b)
     ns = [norm(x) for x in st]
-    if len(ns) != 4:
-        src.err('register_raw', 'expected 4 statements', ' ;; '.join(ns))
-    # statement 2: the match on the probe result
-    m = re.match(r'^let fd=match\(res,Error::last_os_error\(\)\.kind\(\)\)\{\(0,_\)\|\(-1,ErrorKind::WouldBlock\)=>WakeFd\{fd:pipe,method:WakeMethod::Send,?\},_=>\{(.*)\}\}$', ns[1], re.S)
+    # two probe shapes are recognised (both are "OSendProbe" = look at the descriptor, change nothing in
+    # the registry/dispositions): the zero-length send (before fix 96b2274) and getsockopt(SO_TYPE)
+    if len(ns) == 6 and re.match(r'^let mut sock_type:c_int=0$', ns[0]) and re.match(r'^let mut len=std::mem::size_of::<c_int>\(\)as libc::socklen_t$', ns[1]):
+        probe_stmt, match_stmt, tail = ns[2], ns[3], ns[4:]
+        probe_rx = r'let res=unsafe\{libc::getsockopt\(pipe,libc::SOL_SOCKET,libc::SO_TYPE,&mut sock_type as\*mut c_int as\*mut libc::c_void,&mut len,?\)\}'
+        match_rx = r'^let fd=match res\{0=>WakeFd\{fd:pipe,method:WakeMethod::Send,?\},_=>\{(.*)\}\}$'
+    elif len(ns) == 4:
+        probe_stmt, match_stmt, tail = ns[0], ns[1], ns[2:]
+        probe_rx = r'let res=unsafe\{libc::send\(pipe,&\[\]as\*const _,0,MSG_NOWAIT\)\}'
+        match_rx = r'^let fd=match\(res,Error::last_os_error\(\)\.kind\(\)\)\{\(0,_\)\|\(-1,ErrorKind::WouldBlock\)=>WakeFd\{fd:pipe,method:WakeMethod::Send,?\},_=>\{(.*)\}\}$'
+    else:
+        src.err('register_raw', 'expected 4 or 6 statements', ' ;; '.join(ns))
+    # the match on the probe result
+    m = re.match(match_rx, match_stmt, re.S)
     if not m:
-        src.err('register_raw', 'probe match not recognised', ns[1])
+        src.err('register_raw', 'probe match not recognised', match_stmt)
     arm2 = [x for x in m.group(1).split(';')]
     wr = expect(src, 'register_raw/_', arm2, [
         (r'let fd=WakeFd\{fd:pipe,method:WakeMethod::Write,?\}', ['OWakeFdNew']),
         (r'fd\.set_flags\(\)(\?)?', lambda m: ['OSetFlags ' + ('true' if m.group(1) else 'false')]),
         (r'fd', [])])
-    rest = expect(src, 'register_raw', [ns[0], unwrap_unsafe(ns[2]), unwrap_unsafe(ns[3])], [
-        (r'let res=unsafe\{libc::send\(pipe,&\[\]as\*const _,0,MSG_NOWAIT\)\}', ['OSendProbe']),
+    rest = expect(src, 'register_raw', [unwrap_unsafe(probe_stmt), unwrap_unsafe(tail[0]), unwrap_unsafe(tail[1])], [
+        (probe_rx, ['OSendProbe']),
         (r'let action=move\|\|fd\.wake\(\)', ['OCapture RFd']),
         (r'super::register\(signal,action\)', ['OCall FRegister'])])
     out['register_raw'] = (rest[0], ['OWakeFdNew'], wr, rest[1:])
